@@ -148,6 +148,49 @@ def check_frame(case):
     return None
 
 
+def check_manager(case):
+    """the manager's pre-crop: for each non-detection area, exactly the points of the cloud inside the area and outside EVERY scaled ground-truth box"""
+    import types
+    import numpy as np
+    from perception_eval.manager.sensing_evaluation_manager import SensingEvaluationManager
+    m = SensingEvaluationManager.__new__(SensingEvaluationManager)
+    m.evaluator_config = types.SimpleNamespace(metrics_params=dict(box_scale_0m=case["s0"], box_scale_100m=case["s100"]))
+    gts = [obj(d) for d in case["gts"]]
+    pts = np.array(case["points"], dtype=float).reshape(-1, 3)
+    areas = [prism_corners(a) for a in case["areas"]]
+    out = m.crop_pointcloud(gts, pts, areas)
+    if len(out) != len(areas):
+        return f"{len(areas)} areas, {len(out)} clouds"
+    for a, got in zip(case["areas"], out):
+        got_rows = sorted(tuple(r) for r in np.asarray(got).reshape(-1, 3).tolist())
+        want = []
+        for p in case["points"]:
+            fa = in_prism(p, a["poly"], a["z0"], a["z1"])
+            if fa is None:
+                break
+            inside_some = False
+            for d in case["gts"]:
+                scale = case["s0"] + (case["s100"] - case["s0"]) * math.sqrt(d["x"] ** 2 + d["y"] ** 2 + d["z"] ** 2) / 100.0
+                f = in_prism(p, box_poly(d, scale), d["z"] - d["size"][2] / 2, d["z"] + d["size"][2] / 2)
+                if f is None:
+                    fa = None
+                    break
+                inside_some = inside_some or f
+            if fa is None:
+                break
+            if fa and not inside_some:
+                want.append(tuple(float(v) for v in p))
+        else:
+            if got_rows != sorted(want):
+                return f"area {a['poly']}: cropped cloud {got_rows}, points inside the area and outside every scaled box: {sorted(want)}"
+    return None
+
+
+def prism_corners(a):
+    """a prism as the library takes it: upper corners then lower corners"""
+    return [(x, y, a["z1"]) for x, y in a["poly"]] + [(x, y, a["z0"]) for x, y in a["poly"]]
+
+
 def gen_box(rng):
     return dict(x=round(rng.uniform(-20, 20), 2), y=round(rng.uniform(-20, 20), 2), z=round(rng.uniform(-1, 1), 2), yaw=round(rng.uniform(-3.1, 3.1), 2),
                 size=(rng.choice([0.4, 1.8, 2.5]), rng.choice([0.6, 4.5, 10.0]), rng.choice([0.5, 1.6, 3.0])), uuid=str(rng.randint(0, 999)))
@@ -202,11 +245,36 @@ def search(item, seed):
             why = f"raised {type(ex).__name__}: {ex}"
         if why:
             return dict(function="SensingFrameResult.evaluate_frame", input=case, observed=why)
+    for _ in range(budget(60)):
+        gts = [gen_box(rng) for _ in range(rng.randint(0, 3))]
+        areas = []
+        for _a in range(rng.randint(1, 2)):
+            cx, cy = (gts[0]["x"], gts[0]["y"]) if gts and rng.random() < 0.8 else (round(rng.uniform(-20, 20), 2), round(rng.uniform(-20, 20), 2))
+            R = rng.uniform(6, 25)
+            angs = sorted(rng.uniform(0, 2 * math.pi) for _ in range(rng.randint(3, 6)))
+            areas.append(dict(poly=[(round(cx + R * rng.uniform(0.6, 1) * math.cos(t), 2), round(cy + R * rng.uniform(0.6, 1) * math.sin(t), 2)) for t in angs], z0=-3.0, z1=3.0))
+        pts = [p for d in gts for p in points_near(rng, d, rng.randint(1, 5))] + [[round(rng.uniform(-30, 30), 2), round(rng.uniform(-30, 30), 2), round(rng.uniform(-1, 1), 2)] for _ in range(rng.randint(0, 4))]
+        if not pts:
+            continue
+        case = dict(gts=gts, points=pts, areas=areas, s0=rng.choice([1.0, 1.1, 2.0]), s100=rng.choice([1.0, 1.5, 2.0]))
+        try:
+            why = check_manager(case)
+        except Exception as ex:
+            why = f"raised {type(ex).__name__}: {ex}"
+        if why:
+            return dict(function="SensingEvaluationManager.crop_pointcloud", input=case, observed=why)
     return None
 
 
 def replay(payload):
     i = payload["input"]
+    if "areas" in i:
+        for g in i["gts"]:
+            g["size"] = tuple(g["size"])
+        for a in i["areas"]:
+            a["poly"] = [tuple(v) for v in a["poly"]]
+        why = check_manager(i)
+        return (why is None, why or "ok")
     if "box" in i:
         i["box"]["size"] = tuple(i["box"]["size"])
         why = check_crop(i)
